@@ -14,6 +14,7 @@ mod c31;
 mod c32;
 mod c33;
 mod c17_sdl;
+mod c19;
 mod c20;
 mod c21;
 mod c22;
@@ -50,6 +51,7 @@ fn run_inner(case: &str, args: &Value) -> Option<Outcome> {
         "c33_subtype" => Some(c33::subtype(args)),
         "c14_pos" => Some(c14::pos(args)),
         "c12_upload" => Some(c12::upload(args)),
+        "c19_modes" => Some(c19::modes(args)),
         "c31_apq" => Some(c31::apq(args)),
         "c22_lookahead" => Some(c22::lookahead(args)),
         "c32_connection" => Some(c32::connection(args)),
@@ -83,6 +85,7 @@ pub fn search(case: &str, seed: u64, open: &[String]) -> Option<SearchResult> {
         "c33_subtype" => Box::new(c33::inputs(seed)),
         "c14_pos" => Box::new(c14::pos_inputs(seed)),
         "c12_upload" => Box::new(c12::upload_inputs(seed)),
+        "c19_modes" => Box::new(c19::inputs(seed, open)),
         "c31_apq" => Box::new(c31::inputs(seed)),
         "c22_lookahead" => Box::new(c22::inputs(seed)),
         "c32_connection" => Box::new(c32::inputs(seed)),
